@@ -5,6 +5,7 @@ package main
 
 import (
 	"fmt"
+	"go/constant"
 	"go/token"
 	"go/types"
 	"os"
@@ -224,6 +225,7 @@ type LoopInfo struct {
 	Latches []*ssa.BasicBlock
 	Ordinal int
 	RangeIx *ssa.Phi // rangeindex phi if a range-over-slice loop
+	CountIx *ssa.Phi // the induction variable of a counted loop (for i := 0; ...; i++): starts at 0 outside the loop, i+1 on the back edge
 }
 
 type FuncInfo struct {
@@ -285,6 +287,50 @@ func analyzeFunc(fn *ssa.Function) *FuncInfo {
 				li.RangeIx = phi
 			}
 		}
+		if li.RangeIx == nil {
+			// a counted loop: exactly one integer phi in the head that is 0 on entry and itself plus one on every back edge
+			var cands []*ssa.Phi
+			for _, ins := range h.Instrs {
+				phi, ok := ins.(*ssa.Phi)
+				if !ok {
+					continue
+				}
+				if b, isB := phi.Type().Underlying().(*types.Basic); !isB || b.Info()&types.IsInteger == 0 {
+					continue
+				}
+				good := len(phi.Edges) >= 2
+				sawEntry, sawBack := false, false
+				for k, e := range phi.Edges {
+					pred := h.Preds[k]
+					if fi.BackEdg[[2]int{pred.Index, h.Index}] {
+						bo, isBO := e.(*ssa.BinOp)
+						if !isBO || bo.Op != token.ADD || bo.X != ssa.Value(phi) {
+							good = false
+							break
+						}
+						c, isC := bo.Y.(*ssa.Const)
+						if !isC || c.Value == nil || c.Value.Kind() != constant.Int || c.Int64() != 1 {
+							good = false
+							break
+						}
+						sawBack = true
+					} else {
+						c, isC := e.(*ssa.Const)
+						if !isC || c.Value == nil || c.Value.Kind() != constant.Int || c.Int64() != 0 {
+							good = false
+							break
+						}
+						sawEntry = true
+					}
+				}
+				if good && sawEntry && sawBack {
+					cands = append(cands, phi)
+				}
+			}
+			if len(cands) == 1 {
+				li.CountIx = cands[0]
+			}
+		}
 	}
 	// RPO ignoring back edges
 	visited := map[*ssa.BasicBlock]bool{}
@@ -318,7 +364,6 @@ func analyzeFunc(fn *ssa.Function) *FuncInfo {
 	}
 	return fi
 }
-
 
 // fnTypesPkg: the types.Package a function belongs to (instantiations of generic functions have no ssa package of their
 // own: their origin's package is used).
